@@ -318,6 +318,10 @@ def validate_traces(module: str, cfg: str | Path, traces: list, work: Path, *, n
     work.mkdir(parents=True, exist_ok=True)
     tf = work / f"{name}_{time.time_ns()}.json"
     tf.write_text(json.dumps(_no_null(traces)))
+    if os.environ.get("VERIF_SAVE_TRACES"):
+        sd = Path(os.environ["VERIF_SAVE_TRACES"])
+        sd.mkdir(parents=True, exist_ok=True)
+        (sd / f"{module}.json").write_text(json.dumps(_no_null(traces[:400])))
     e = {"TRACE_FILE": str(tf)}
     if env:
         e.update(env)
